@@ -96,7 +96,7 @@ func c07Run(c *fw.Ctx) {
 	rootLists := [][]string{{"sso.test"}, {".sso.test", "other.test"}, {"*.sso.test"}}
 	sigs := []string{"valid", "valid-for-another-uri", "wrong-secret", "missing", "not-base64"}
 	tss := []string{"now", "-299s", "-301s", "+1h", "non-numeric", "missing", "min-int64", "min-int64+1", "zero", "minus-now", "max-int64"}
-	endpoints := []string{"sign_in/no-cookie", "sign_in/cookie", "sign_out/GET/cookie", "sign_out/GET/no-cookie", "sign_out/POST/cookie", "sign_out/POST/no-cookie", "start/nested", "start/outer", "callback/state", "sign_out-split/POST/cookie", "sign_out-split/POST/no-cookie", "callback-error/state", "sign_out-split-query-signed/POST/cookie", "sign_out-split-query-signed/POST/no-cookie"}
+	endpoints := []string{"sign_in/no-cookie", "sign_in/cookie", "sign_out/GET/cookie", "sign_out/GET/no-cookie", "sign_out/POST/cookie", "sign_out/POST/no-cookie", "start/nested", "start/outer", "callback/state", "sign_out-split/POST/cookie", "sign_out-split/POST/no-cookie", "callback-error/state", "sign_out-split-query-signed/POST/cookie", "sign_out-split-query-signed/POST/no-cookie", "callback-own-sign-in/state"}
 	if !c.Thorough() {
 		tss = []string{"now", "-301s", "+1h", "missing", "min-int64"}
 	}
@@ -240,6 +240,25 @@ func c07Run(c *fw.Ctx) {
 				q.Set("redirect_uri", uri+sep+in.Encode())
 			}
 			target = "/" + e.Slug + "/start?" + q.Encode()
+		case "callback-own-sign-in":
+			// what /start records in the state: the authenticator's own sign_in URL carrying the proxy URI with
+			// its sig and ts — the identity provider may take any time to send the browser back, and the state
+			// itself is only bound to the browser's own CSRF cookie
+			in := url.Values{}
+			in.Set("client_id", harness.ClientID)
+			in.Set("state", "proxy-state-value")
+			in.Set("redirect_uri", uri)
+			if sig != "" {
+				in.Set("sig", sig)
+			}
+			if ts != "" {
+				in.Set("ts", ts)
+			}
+			nonce := "0123456789abcdef"
+			q.Set("code", "idp-code")
+			q.Set("state", base64.URLEncoding.EncodeToString([]byte(nonce+":https://"+harness.AuthHost+"/"+e.Slug+"/sign_in?"+in.Encode())))
+			hdr.Set("Cookie", e.CookieName+"_csrf="+nonce)
+			target = "/" + e.Slug + "/callback?" + q.Encode()
 		case "callback":
 			nonce := "0123456789abcdef"
 			q.Set("code", "idp-code")
@@ -277,6 +296,10 @@ func c07Run(c *fw.Ctx) {
 				} else {
 					c.Res.Count("positive_idp_logins_started", 1)
 				}
+			case parts[0] == "callback-own-sign-in" && err == nil && loc.Host == harness.AuthHost && loc.Path == "/"+e.Slug+"/sign_in":
+				// back to the authenticator's own sign_in, which judges the signature itself (endpoint sign_in/cookie)
+				outcome = "own-sign-in"
+				c.Res.Count("positive_callback_back_to_own_sign_in", 1)
 			default:
 				outcome = "redirect"
 				ok, h1, h2 := bothInDomain(resp.Location, base, roots)
@@ -344,7 +367,7 @@ func init() {
 		Level: "exploration",
 		Rule: "full product on the unmodified NewAuthenticatorMux (Okta provider against a scripted IdP over TLS): URI grammar = scheme {https, http, HTTPS, javascript, none, //} x userinfo {none, in-domain-looking@ (thorough: x:y@)} x host {root, sub.root, other, root as prefix of another domain, look-alike suffix, root with its leading characters removed, root with its dot replaced by another character, upper case, trailing dot, with port, IPv6, empty, %2f / backslash / TAB / # / ? inside} x tail {path, query naming another authority (thorough: fragment and path with @)}; " +
 			"root-domain lists {[sso.test], [.sso.test, other.test]}; signature {valid, valid for another URI, wrong secret, missing, not base64}; ts via the virtual clock {now, -301 s, +1 h, missing, the smallest int64 (thorough: -299 s, non-numeric, smallest int64 + 1, 0, -now, largest int64)}, each validly signed where a signature is valid; " +
-			"endpoints: sign_in with/without authenticator cookie, sign_out GET/POST with/without cookie, start with the URI as nested proxy URI and as outer return URI, callback with the URI carried in state (also with error=access_denied), sign_out POST with the URI in the query and a correctly signed one in the body. " +
+			"endpoints: sign_in with/without authenticator cookie, sign_out GET/POST with/without cookie, start with the URI as nested proxy URI and as outer return URI, callback with the URI carried in state (also with error=access_denied; also with the state /start really records, the authenticator's own sign_in URL carrying the URI with its sig and ts), sign_out POST with the URI in the query and a correctly signed one in the body. " +
 			"Oracle: every 3xx Location other than the IdP's resolves inside the root domains under both an RFC 3986 and a browser-style reading; a code-carrying redirect, a sign-in/sign-out redirect and the start of an IdP login happen only if an independent HMAC-SHA256 recomputation accepts (uri, sig, ts) with ts <= 300 s old; " +
 			"distinct_nontrivial = distinct (endpoint, URI class, sig, ts, roots, outcome)",
 		Assumptions:    []string{"host names compared case-insensitively and without a trailing dot by the reference (the implementation may be stricter)"},
